@@ -36,7 +36,9 @@ CHECKS = [
           'height symbolic; flush schedule enumerated) is indexed by the real advance_block/flush_dbs and all_utxos, '
           'lookup_utxos, counts, tip, headers and tx-hash files are proved equal to an independent reference indexer on '
           'every feasible path.  K1: UTXO table layout round trip with every key/value byte of 2-3 records symbolic '
-          '(prefix+index collisions included) through the real flush_utxo_db / spend_utxo / all_utxos / lookup_utxos.',
+          '(prefix+index collisions included) through the real flush_utxo_db / spend_utxo / all_utxos / lookup_utxos.  '
+          'K2: one inductive step - advance_block of one symbolic block (and its backup) from an arbitrary valid '
+          'flushed state of 2-3 fully symbolic UTXO records.',
   'note': 'Trusted: CPython, z3, symx proxies and shims (native witness replay on real LevelDB), MemStore/MemFS as '
           'models of LevelDB and files, sha256 as injective uninterpreted function (script-hash prefix collisions '
           'free), sorted() over symbolic keys in batch-building loops taken as order-insensitive. Outside: chains '
@@ -56,7 +58,9 @@ CHECKS = [
           'the surviving chain; after the backup and after the re-advance (also after restart) every observable is '
           'proved equal to the reference of the surviving chain.  K2: the real _calc_reorg_range against two chains '
           'sharing a prefix of symbolic length: start/count exact for every fork depth 1..D (D=8 quick, 32 thorough) '
-          'at the listed heights, and for forced reorgs of any count.',
+          'at the listed heights, and for forced reorgs of any count.  K3: reorganisation stories (depth 1..3, natural '
+          'and forced, non-respending branches) through the real asynchronous shell with the real OnDiskBlock (raw block '
+          'files written by the stub daemon, real prefetch and chunked readers) under the gate scheduler.',
   'note': 'As C01.  Outside: forks deeper than 3 with real blocks (K2 carries depth), the asynchronous shell '
           '(reorg_chain prefetch/locking; see C06), heights other than those listed in K2.',
   'design_ref': 'DESIGN.md section 4, C03'},
@@ -66,7 +70,9 @@ CHECKS = [
           'or leaves arbitrary symbolic bytes (torn file write).  After restart through the real open_for_sync z3 shows, '
           'for all garbage bytes, that the stored height is between the last completed full flush and the block in '
           'progress, that every observable equals the reference at that height, and that resuming reaches the reference '
-          'of the whole chain.  Flush schedules enumerated; second crash during recovery in thorough.',
+          'of the whole chain.  Flush schedules enumerated; second crash during recovery in thorough.  BATCHCFG: a '
+          'concrete companion opens the real LevelDB wrapper and checks the batch options the atomicity assumption '
+          'rests on (transaction=True, sync where the code asks for it).',
   'note': 'Assumes atomic LevelDB batches/puts and that completed file writes survive process death (no power loss). '
           'Trusted: as C01; crash counterexamples are replayed on real LevelDB/files with the same operation counter.',
   'design_ref': 'DESIGN.md section 4, C04'},
@@ -77,7 +83,8 @@ CHECKS = [
           'daemon stays on the new branch, is back on the extended old branch, or (forced reorg) never changed; once '
           'idle the index is proved equal to the reference of the daemon\'s chain on every path.  The cut between the '
           'history-rollback batch and the UTXO-rollback batch with a continuation that does not re-detect the fork is '
-          'a recorded known finding (three signatures); every other cut x continuation must pass.',
+          'a recorded known finding (three signatures); every other cut x continuation must pass; a server that '
+          'never becomes idle after the restart (keeps polling without progress) is reported as a violation.',
   'note': 'As C04, plus: daemon RPCs, block prefetch (FakeODB) and the poll sleep are stubs (vlib/shell.py); worker '
           'threads run inline.  Outside: two crashes, forks deeper than 3, scenarios violating the property\'s '
           'height >= 2 x depth proviso.',
@@ -138,14 +145,15 @@ CHECKS = [
   'design_ref': 'DESIGN.md section 4, C16'},
  {'id': 'C19',
   'technique': 'symx bounded symbolic execution (K1) + CrossHair on JSON feature dictionaries (K2)',
-  'text': 'K1: real PeerManager.on_peers_subscribe/_get_recent_good_peers over peer sets drawn from a 24-entry '
+  'text': 'K1: real PeerManager.on_peers_subscribe/_get_recent_good_peers over peer sets drawn from a 30-entry '
           'hand-labelled address pool with every last_good and the clock symbolic reals, bad flags symbolic, '
           'random.shuffle a solver-chosen permutation, 0..60 onion peers, tor/non-tor: every advertised tuple is a '
           'recent, not-bad, publicly routable peer (by the pool labels) or a recently verified own identity, <= 2 per '
-          '/16-/56 bucket, onion peers capped.  K2: CrossHair on Peer.peers_from_features with JSON-typed feature '
+          '/16-/56 bucket, onion peers capped; in two scenarios host-name peers are re-verified at another address and '
+          'the request is repeated.  K2: CrossHair on Peer.peers_from_features with JSON-typed feature '
           'dictionaries: never raises, ports None or in (0, 65536), public only for routable addresses / valid host '
           'names.',
-  'note': 'K1 peer sets are enumerated (9 quick / 13 thorough), values inside are solver-quantified; K2 is bounded '
+  'note': 'K1 peer sets are enumerated (13 quick / 17 thorough), values inside are solver-quantified; K2 is bounded '
           'search (not-confirmed = inconclusive).  time.time / random.shuffle are symbolic stubs.',
   'design_ref': 'DESIGN.md section 4, C19'},
  {'id': 'C08',
@@ -154,7 +162,9 @@ CHECKS = [
           'symbolic integers, the spend graph (confirmed outputs, mempool parents, generation-like inputs) and the '
           'hash-to-role assignment (= every delivery order) are solver-enumerated, arrival/eviction/confirmation '
           'events are enumerated; after every synchronised refresh balance delta, (hash, fee, flag) set, unconfirmed '
-          'outputs, potential spends and the touched set are proved against the reference for every script-hash class.',
+          'outputs, potential spends and the touched set are proved against the reference for every script-hash class.  '
+          'DBLOOKUP (shared with C09): a refresh wired to the REAL DB.lookup_utxos over a flushed symbolic chain, spent '
+          'output solver-chosen, live outputs and an absent outpoint free to share compressed-hash prefix and index.',
   'note': 'Stubs: MemPoolAPI (reference world), read_tx (prepared Tx), run_in_thread, sleep.  Daemon-validity '
           'assumptions stated in the evidence.  <= 4 transactions, one fetch batch.',
   'design_ref': 'DESIGN.md section 4, C08'},
@@ -162,7 +172,10 @@ CHECKS = [
   'text': 'As C08, but the world may change at every API call of a refresh (solver-enumerated placement and kind within '
           'a budget: block with/without the index catching up, catch-up, eviction with descendants, arrival, lookup '
           'miss); after every pass: nothing escaped, hashXs is the exact inverse of txs, every recorded transaction\'s '
-          'input pairs and fee equal the reference; after two quiet refreshes the exact C08 view is proved.',
+          'input pairs and fee equal the reference; after two quiet refreshes the exact C08 view is proved.  DBLOOKUP: '
+          'the refresh against the real DB.lookup_utxos (flushed symbolic chain): a transaction spending an outpoint that '
+          'is not in the index - free to collide with indexed ones on prefix+index - is never recorded, one spending any '
+          'live output is recorded with exactly the index\'s script hash and value.',
   'note': 'As C08; 1 (quick) / 2 (thorough) world changes; heights only rise during a refresh.',
   'design_ref': 'DESIGN.md section 4, C09'},
  {'id': 'C07',
@@ -172,7 +185,8 @@ CHECKS = [
           'thread-result delivery, block fetch and sleep is a gate); scripted stories of blocks, natural and forced '
           'reorgs, mempool arrivals / evictions / confirmations and subscriptions run with FIFO scheduling plus 1 '
           '(quick) / 2 (thorough) deviations chosen by the solver (postpone a gate for a full timer round, fire a timer '
-          'early, inject the next event early); at quiescence every subscriber holds the reference status and tip, no '
+          'early, inject the next event early; in marked stories also postpone a gate only until the other calls have '
+          'drained); a server that spins without progress is a violation; at quiescence every subscriber holds the reference status and tip, no '
           'header notification preceded its block, no task died and the index equals the reference.',
   'note': 'Chain content concrete; the schedule is the symbolic input (choice variables decided by z3, counterexample '
           'schedules replayed natively on real LevelDB).  Stubs: daemon, prefetch/block files, worker threads, sleeps, '
@@ -181,7 +195,8 @@ CHECKS = [
  {'id': 'C10',
   'technique': 'symx gate scheduler: real components on an asyncio loop, bounded schedule deviations solver-enumerated',
   'text': 'The C07 machinery with client queries (history, balance, listunspent, mempool, id-from-position) placed '
-          'before, inside (right after backup_block returns) and after reorg windows or racing a block; at quiescence '
+          'before, inside (right after backup_block returns; or with the read started just before the undo and delivered '
+          'after the reorg handler ran) and after reorg windows or racing a block; at quiescence '
           'every query for the listed script-hash classes and every (height, position) is repeated and proved equal '
           'to the reference on the daemon\'s chain and mempool.',
   'note': 'As C07.',
@@ -194,7 +209,8 @@ CHECKS = [
           'raise RPCError, every in-range request (solver-enumerated) is folded by an independent hashlib-only function '
           'and must give the header\'s merkle root / the root of the current block hashes; blocks of 1..8 and 200..203 '
           'transactions.  K2: the full system under the gate scheduler with proofs requested before, inside and after '
-          'reorg windows and header reads of in-flight requests postponed past the reorg; at quiescence every header '
+          'reorg windows and header / tx-hash reads of in-flight requests postponed past the reorg (for a full timer round '
+          'or only until the reorg has been processed); at quiescence every header '
           'proof (height <= cp <= tip) and every transaction proof verifies against the current chain.',
   'note': 'Hashes are concrete in C11 so that the real double_sha256 can be folded independently (C12 covers the '
           'functions with symbolic leaves).  Stubs as C07.',
@@ -206,10 +222,11 @@ CHECKS = [
           'the gate scheduler through initial sync, a new block, a natural reorg and a forced reorg; shutdown (set the '
           'event, cancel every task) is a deviation the solver places at every scheduler step; the block processor\'s '
           'worker jobs run in real threads that park at every durable storage operation, each continuation being a gate, '
-          'so a cancelled job can still be running while the shutdown path flushes; a second deviation may postpone any '
-          'gate.  After the task returned and the remaining threads finished, the database is reopened: stored height == '
+          'so a cancelled job can still be running while the shutdown path flushes; in the read-preemption scenarios '
+          'the jobs also park at every store read, i.e. shutdown can land while a block is half advanced; cache-pressure '
+          'flush requests are injected at block boundaries; a second deviation may postpone any gate.  After the task returned and the remaining threads finished, the database is reopened: stored height == '
           'height of the last completed block, index == reference at that height.',
-  'note': 'Preemption granularity is one durable storage operation.  Counterexample schedules are replayed natively with '
+  'note': 'Preemption granularity is one storage operation (writes everywhere, reads in the marked scenarios).  Counterexample schedules are replayed natively with '
           'real threads on real LevelDB.  Stubs as C07 (sessions and mempool not started).',
   'design_ref': 'DESIGN.md section 4, C06'},
 ]
